@@ -18,7 +18,9 @@ pool of collections built from retained NumPy sources: derive (slice / elemwise 
 / data-dependent selection), `x[key] = value` (ints, slices of all signs and steps, Ellipsis, integer
 lists, 1-d NumPy boolean masks per axis, dask boolean masks `x[x > c] = v`, dask integer arrays;
 scalar / broadcastable NumPy / dask values incl. values derived from x itself), `np.f(a, b, out=x)` /
-`da.f(a, b, out=x)`, `x.compute_chunk_sizes()`, interleaved computes; optimised and unoptimised;
+`da.f(a, b, out=x)`, `x.compute_chunk_sizes()`, interleaved computes; NumPy MaskedArray values; `x.optimize()` before and
+after an update (compute / optimize / dask.compute / persist must agree); `x.__dask_keys__()` / `x.to_delayed()` taken before an
+update (new keys belong to the new graph, old delayed blocks keep the old value); optimised and unoptimised;
 verification after EVERY step (or only at the end: cold caches): every pool member == its mirror
 (so collections derived earlier keep their earlier value) and every retained source is bit-identical
 to its initial copy.  Keys NumPy accepts but dask refuses must raise and leave everything unchanged.
@@ -143,17 +145,6 @@ def real_plan(chunks, key, vshape):
     return "ok " + " ".join(out)
 
 
-def int_before_reversed(key):
-    """The known failing class: an integer index at a position before a negative-step slice."""
-    seen_int = False
-    for k in key:
-        if isinstance(k, (int, np.integer)) and not isinstance(k, bool):
-            seen_int = True
-        elif isinstance(k, slice) and k.step is not None and k.step < 0 and seen_int:
-            return True
-    return False
-
-
 def plan_pairs(ctx, NEX, NR):
     rng = ctx.rng
     pairs = []
@@ -202,8 +193,6 @@ def plan_pairs(ctx, NEX, NR):
         for d in shape:
             key.append(rng.randint(-d, d - 1) if rng.random() < 0.25 else gen.rand_slice(rng, d, steps=steps))
         key = tuple(key)
-        if int_before_reversed(key):
-            continue  # known failing class, probed separately
         lens = [len(range(d)[k]) for k, d in zip(key, shape) if isinstance(k, slice)]
         if not lens or 0 in lens or rng.random() < 0.3:
             vk, vshape = "s", ()
@@ -359,17 +348,6 @@ def rand_key(rng, shape):
     return enc_key(key)
 
 
-def known_class(enc):
-    """Keys of the known failing class (integer before a negative-step slice)."""
-    seen_int = False
-    for k in enc:
-        if isinstance(k, int):
-            seen_int = True
-        elif isinstance(k, list) and (k[3] or 1) < 0 and seen_int:
-            return True
-    return False
-
-
 # --------------------------------------------------------------------------- histories
 
 DERIVE_OPS = ("unary", "binary", "transpose", "getitem", "getitem", "rechunk", "flip", "boolmask")
@@ -382,6 +360,7 @@ class Sim:
         self.np = {}      # name -> mirror (own copy)
         self.order = []
         self.unknown = set()  # names whose dask chunks are unknown
+        self.masked = set()   # names whose value is a numpy.ma.MaskedArray (after a MaskedArray was assigned)
 
     def apply(self, st):
         """Apply a step to the mirrors; returns nothing, raises if NumPy refuses."""
@@ -392,14 +371,24 @@ class Sim:
         elif op == "derive":
             with np.errstate(all="ignore"):
                 r = P.apply_step(st["step"], self.np, np, False)
-            self.np[st["out"]] = np.array(r, copy=True)
+            self.np[st["out"]] = r.copy() if isinstance(r, np.ma.MaskedArray) else np.array(r, copy=True)
             self.order.append(st["out"])
+            if any(a in self.masked for a in st["step"].get("args", [])):
+                self.masked.add(st["out"])
             if st["step"]["op"] == "boolmask_1d" or any(a in self.unknown for a in st["step"].get("args", [])):
                 self.unknown.add(st["out"])
         elif op == "setitem":
             m = self.np[st["x"]]
             key = dec_key(st["key"], self.np, False) if "key" in st else None
             val = self.value(st)
+            if isinstance(val, np.ma.MaskedArray) and not isinstance(m, np.ma.MaskedArray):
+                # dask: "if x is not masked but v is, then turn x into a masked array"  (numpy.ma semantics)
+                mm = np.ma.array(m)
+                for n in list(self.np):
+                    if self.np[n] is m:  # names of the same collection share one mirror
+                        self.np[n] = mm
+                        self.masked.add(n)
+                m = mm
             if "mask" in st:
                 mk = self.mask(st["mask"])
                 m[mk] = val
@@ -410,7 +399,7 @@ class Sim:
             f(self.np[st["a"]], self.np[st["b"]], out=self.np[st["x"]])
         elif op == "ccs":
             self.unknown.discard(st["x"])
-        elif op == "compute":
+        elif op in ("compute", "optimize", "keys"):
             pass
         else:
             raise KeyError(op)
@@ -420,6 +409,8 @@ class Sim:
         if isinstance(v, dict):
             if "np" in v:
                 return np.array(v["np"], dtype=np.int64)
+            if "ma" in v:
+                return np.ma.array(np.array(v["ma"], dtype=np.int64), mask=np.array(v["mask"], dtype=bool))
             ref = self.np[v["ref"]]
             return np.array(ref[P._dec_index(v["index"])], copy=True)
         return v
@@ -477,6 +468,23 @@ def gen_history(rng, length):
               "mul": rng.choice([1, 3, 7]), "off": rng.randint(-5, 5), "mod": rng.choice([1 << 40, 11, 7])}
         add(st)
 
+    def in_place(st, x):
+        """Add an in-place update of x, sometimes bracketed by the entry-point / key-touching steps:
+        x.optimize() before and after (every entry point must agree afterwards), x.__dask_keys__() / x.to_delayed()
+        before (keys handed out earlier are cached on the collection)."""
+        r = rng.random()
+        before = []
+        if r < 0.2:
+            before.append({"op": "optimize", "x": x})
+        if 0.1 < r < 0.35:
+            before.append({"op": "keys", "x": x})
+        for b in before:
+            add(b)
+        ok = add(st)
+        if ok and before:
+            add({"op": "optimize", "x": x})
+        return ok
+
     new_src()
     if rng.random() < 0.5:
         new_src()
@@ -494,11 +502,13 @@ def gen_history(rng, length):
             kind = rng.choice(DERIVE_OPS)
             if a in tainted and kind in ("getitem", "flip", "boolmask", "rechunk"):
                 continue
+            if a in sim.masked and kind in ("binary", "boolmask"):
+                continue  # masked collections: only views and unary ops are derived (numpy.ma mixes masks in binary ops)
             st = None
             if kind == "unary":
                 st = {"op": rng.choice(["neg", "affine", "mod7", "sq"]), "args": [a]}
             elif kind == "binary":
-                cands = [b for b in names if P._bcast_ok(x.shape, sim.np[b].shape) and b not in sim.unknown]
+                cands = [b for b in names if P._bcast_ok(x.shape, sim.np[b].shape) and b not in sim.unknown and b not in sim.masked]
                 if cands and a not in sim.unknown:
                     st = {"op": rng.choice(["add", "sub", "mul", "maximum"]), "args": [a, rng.choice(cands)]}
             elif kind == "transpose" and x.ndim >= 2 and a not in sim.unknown:
@@ -530,10 +540,12 @@ def gen_history(rng, length):
             x = rng.choice(xs)
             m = sim.np[x]
             st = {"op": "setitem", "x": x}
-            if rng.random() < 0.2:
+            # a dask boolean-mask key goes through where(key, value, x), and np.where drops x's mask: known class (probe_known (6))
+            if rng.random() < 0.2 and x not in sim.masked:
                 # dask boolean mask of x's shape: x itself or another same-shape member, scalar value
                 # unknown chunk sizes: only a mask derived from x itself is aligned with x (anything else is refused at compute: C28)
                 cands = [x] if x in sim.unknown else [n for n in names if sim.np[n].shape == m.shape and n not in sim.unknown]
+                cands = [n for n in cands if n not in sim.masked]
                 if not cands:
                     continue
                 st["mask"] = {"ref": rng.choice(cands), "cmp": rng.choice([">", "%"]), "c": rng.randint(1, 6)}
@@ -544,8 +556,6 @@ def gen_history(rng, length):
                 if m.ndim == 0:
                     continue
                 enc = rand_key(rng, m.shape)
-                if known_class(enc):
-                    continue
                 st["key"] = enc
                 try:
                     target = m[dec_key(enc, sim.np, False)]
@@ -564,13 +574,18 @@ def gen_history(rng, length):
                     if rng.random() < 0.15 and not fancy and len(shp) == target.ndim and not any(isinstance(kk, int) for kk in enc):
                         shp = [1] + shp
                     n = int(np.prod(shp)) if shp else 1
-                    st["value"] = {"np": (np.arange(n, dtype=np.int64).reshape(shp) * 2 - 1000).tolist()}
+                    data = np.arange(n, dtype=np.int64).reshape(shp) * 2 - 1000
+                    if rng.random() < 0.25 and x not in sim.unknown and x not in tainted:
+                        # a NumPy MaskedArray value: x becomes a masked array (numpy.ma semantics)
+                        st["value"] = {"ma": data.tolist(), "mask": (np.array([rng.random() < 0.4 for _ in range(n)]).reshape(shp)).tolist()}
+                    else:
+                        st["value"] = {"np": data.tolist()}
                 else:
                     # dask value derived from a pool member (possibly x itself), same shape as the target
                     found = None
                     for _ in range(12):
                         r = rng.choice(names)
-                        if r in sim.unknown or sim.np[r].ndim == 0 or r in tainted:
+                        if r in sim.unknown or sim.np[r].ndim == 0 or r in tainted or r in sim.masked:
                             continue
                         idx = P.rand_basic_index(rng, sim.np[r].shape, allow_none=False)
                         try:
@@ -583,7 +598,7 @@ def gen_history(rng, length):
                     if found is None:
                         continue
                     st["value"] = found
-            add(st)
+            in_place(st, x)
         elif q < 0.88:
             # out=
             x = rng.choice(names)
@@ -595,15 +610,21 @@ def gen_history(rng, length):
             if not pairs:
                 continue
             a, b = rng.choice(pairs)
-            if add({"op": "out", "x": x, "a": a, "b": b, "ufunc": rng.choice(["add", "subtract", "multiply", "maximum"]),
-                    "style": rng.choice(["np", "da"])}):
+            if any(n in sim.masked for n in (x, a, b)):
+                continue
+            if in_place({"op": "out", "x": x, "a": a, "b": b, "ufunc": rng.choice(["add", "subtract", "multiply", "maximum"]),
+                         "style": rng.choice(["np", "da"])}, x):
                 taint(x)
         elif q < 0.93:
             unk = [n for n in names if n in sim.unknown]
             if unk:
                 add({"op": "ccs", "x": rng.choice(unk)})
-        else:
+        elif q < 0.96:
             add({"op": "compute", "x": rng.choice(names)})
+        elif q < 0.98:
+            add({"op": "optimize", "x": rng.choice(names)})
+        else:
+            add({"op": "keys", "x": rng.choice(names)})
     return steps
 
 
@@ -619,6 +640,23 @@ def numpy_accepts(sim, st):
         return False
 
 
+def same_arr(got, want):
+    """Equality incl. masks: same shape and dtype, same mask, same data where not masked."""
+    if got.shape != want.shape or got.dtype != want.dtype:
+        return False
+    gm, wm = np.ma.isMaskedArray(got), np.ma.isMaskedArray(want)
+    if gm or wm:
+        mg, mw = np.ma.getmaskarray(got), np.ma.getmaskarray(want)
+        if not np.array_equal(mg, mw):
+            return False
+        return bool(np.array_equal(np.ma.getdata(got)[~mg], np.ma.getdata(want)[~mw]))
+    return bool(np.array_equal(got, want))
+
+
+def listed(a):
+    return np.ma.filled(a, -999999).tolist() if a.size <= 64 else list(a.shape)
+
+
 def fingerprint(a):
     return hashlib.sha1(np.ascontiguousarray(a).tobytes() + str(a.shape).encode() + str(a.dtype).encode()).hexdigest()
 
@@ -628,6 +666,7 @@ def run_history(steps, optimize, eager, stop_at=None):
     {"step": i, "what": ..., "name": ..., ...}; `refusals` are collected in the returned tuple."""
     import dask
     import dask_array as da
+    from dask.core import flatten
 
     sim = Sim()
     env = {}
@@ -635,19 +674,54 @@ def run_history(steps, optimize, eager, stop_at=None):
     prints = {}
     refusals = []
 
+    stash = []    # (name, delayed blocks, block slices, mirror copy) taken by a `keys` step: old graphs keep their old values
+    touched = set()  # names whose keys were materialised before later updates
+
     def verify(i, names=None):
         for n in (names or sim.order):
             try:
-                got = np.asarray(env[n].compute(**SYNC))
+                got = np.asanyarray(env[n].compute(**SYNC))
             except Exception as e:
                 return {"step": i, "what": "compute-raises", "name": n, "error": repr(e)[:300]}
             want = sim.np[n]
-            if got.shape != want.shape or got.dtype != want.dtype or not np.array_equal(got, want):
-                return {"step": i, "what": "value", "name": n, "got": np.asarray(got).tolist() if got.size <= 64 else list(got.shape),
-                        "want": want.tolist() if want.size <= 64 else list(want.shape)}
+            if not same_arr(got, want):
+                return {"step": i, "what": "value", "name": n, "got": listed(got), "want": listed(want)}
+            if n in touched:
+                # keys handed out earlier were cached on the collection: after an update they must be the keys of the NEW graph
+                x = env[n]
+                keys = list(flatten(x.__dask_keys__()))
+                try:
+                    graph = set(x.__dask_graph__())
+                except Exception as e:
+                    return {"step": i, "what": "graph-raises", "name": n, "error": repr(e)[:300]}
+                if any(k[0] != x.name for k in keys) or not set(keys) <= graph:
+                    return {"step": i, "what": "stale-keys", "name": n, "keys": repr(keys[:3]), "collection": x.name}
+        for n, delayed, slices, old in stash:
+            try:
+                blocks = dask.compute(*delayed, **SYNC)
+            except Exception as e:
+                return {"step": i, "what": "old-delayed-raises", "name": n, "error": repr(e)[:300]}
+            for b, sl in zip(blocks, slices):
+                if not same_arr(np.asanyarray(b), old[sl]):
+                    return {"step": i, "what": "old-delayed-value", "name": n, "got": listed(np.asanyarray(b)), "want": listed(old[sl])}
         for n, a in sources.items():
             if fingerprint(a) != prints[n]:
                 return {"step": i, "what": "source-mutated", "name": n}
+        return None
+
+    def entry_points(i, n):
+        """x.compute(), x.optimize().compute(), dask.compute(x), x.persist().compute() must all give the mirror."""
+        x = env[n]
+        want = sim.np[n]
+        for label, f in (("compute", lambda: x.compute(**SYNC)), ("optimize", lambda: x.optimize().compute(**SYNC)),
+                         ("dask.compute", lambda: dask.compute(x, **SYNC)[0]), ("persist", lambda: x.persist(**SYNC).compute(**SYNC)),
+                         ("optimize-twice", lambda: x.optimize().optimize().compute(**SYNC))):
+            try:
+                got = np.asanyarray(f())
+            except Exception as e:
+                return {"step": i, "what": "entry-point-raises:" + label, "name": n, "error": repr(e)[:300]}
+            if not same_arr(got, want):
+                return {"step": i, "what": "entry-point:" + label, "name": n, "got": listed(got), "want": listed(want)}
         return None
 
     with dask.config.set({"array.optimize-graph": optimize}):
@@ -681,7 +755,12 @@ def run_history(steps, optimize, eager, stop_at=None):
                     return None, refusals  # an earlier refusal made the rest of the history meaningless
                 try:
                     if isinstance(v, dict):
-                        val = np.array(v["np"], dtype=np.int64) if "np" in v else env[v["ref"]][P._dec_index(v["index"])]
+                        if "np" in v:
+                            val = np.array(v["np"], dtype=np.int64)
+                        elif "ma" in v:
+                            val = np.ma.array(np.array(v["ma"], dtype=np.int64), mask=np.array(v["mask"], dtype=bool))
+                        else:
+                            val = env[v["ref"]][P._dec_index(v["index"])]
                     else:
                         val = v
                     if "mask" in st:
@@ -730,6 +809,21 @@ def run_history(steps, optimize, eager, stop_at=None):
                 bad = verify(i, [st["x"]])
                 if bad:
                     return bad, refusals
+            elif op == "optimize":
+                bad = entry_points(i, st["x"])
+                if bad:
+                    return bad, refusals
+            elif op == "keys":
+                x = env[st["x"]]
+                touched.add(st["x"])
+                keys = x.__dask_keys__()
+                if x.ndim >= 1 and not any(np.isnan(c) for cs in x.chunks for c in cs):
+                    delayed = list(x.to_delayed().ravel())
+                    starts = [np.cumsum((0,) + tuple(cs)) for cs in x.chunks]
+                    slices = [tuple(slice(int(starts[ax][b]), int(starts[ax][b + 1])) for ax, b in enumerate(bid))
+                              for bid in itertools.product(*[range(len(cs)) for cs in x.chunks])]
+                    stash.append((st["x"], delayed, slices, sim.np[st["x"]].copy()))
+                    stash[:] = stash[-3:]
             if eager or i == len(steps) - 1 or (stop_at is not None and i == stop_at):
                 bad = verify(i)
                 if bad:
@@ -886,8 +980,8 @@ def probe_known(ctx):
     """Classes the random stream avoids because they fail on the unchanged tree (reported as findings)."""
     import dask_array as da
 
-    # an integer index before a negative-step slice: `reverse` holds ARRAY-dimension positions but is used
-    # to index the VALUE's dimensions -> the wrong value axis is reversed (or IndexError at graph time)
+    # (1) regression probe (fixed in 9ba0aa7): an integer index before a negative-step slice; `reverse` held ARRAY-dimension
+    # positions but was used to index the VALUE's dimensions -> wrong value axis reversed (or IndexError at graph time)
     a = np.arange(8).reshape(2, 2, 2)
     v = np.array([[1, 2], [3, 4]])
     x = da.from_array(a.copy(), chunks=1)
@@ -974,6 +1068,26 @@ def probe_known(ctx):
                  {"program": "x = da.from_array(np.arange(12).reshape(2,2,3), chunks=1); x[-1, :, :] = np.arange(6).reshape(1,2,3); x.compute()", "error": repr(e)[:200]},
                  "x[int, :, :] = v with v.ndim == x.ndim (leading 1) is accepted (NumPy broadcasts) and then x cannot be computed")
 
+    # (6) a dask boolean-mask key on a collection that holds a masked array: where(key, value, x) -> np.where drops x's mask
+    try:
+        x = da.from_array(np.arange(4), chunks=2)
+        x[1:3] = np.ma.array([10, 11], mask=[True, False])
+        m = np.ma.array(np.arange(4))
+        m[1:3] = np.ma.array([10, 11], mask=[True, False])
+        key = da.from_array(np.array([False, False, False, True]), chunks=2)
+        x[key] = 7
+        m[np.array([False, False, False, True])] = 7
+        ctx.count(("probe", "dask-mask-on-masked"))
+        got = np.asanyarray(x.compute(**SYNC))
+        if not same_arr(got, m):
+            ctx.fail("setitem:dask-mask-key-on-masked-array:mask-lost",
+                     {"program": "x = da.from_array(np.arange(4), chunks=2); x[1:3] = np.ma.array([10, 11], mask=[True, False]); "
+                                 "x[da.from_array(np.array([False, False, False, True]), chunks=2)] = 7; x.compute()",
+                      "got": listed(got), "got_masked": bool(np.ma.isMaskedArray(got)), "want": listed(m)},
+                     "x[dask bool mask] = v on a masked x goes through where(): the mask of x is dropped and the hidden data reappear (numpy.ma keeps the mask)")
+    except Exception as e:
+        ctx.notes["probe.dask-mask-on-masked"] = "raises " + repr(e)[:120]
+
 
 def search(ctx):
     rng = ctx.rng
@@ -994,7 +1108,7 @@ def search(ctx):
             if s["op"] == "setitem":
                 kinds = tuple(key_kinds(s["key"])) if "key" in s else ("dask-mask",)
                 v = s["value"]
-                vk = "scalar" if not isinstance(v, dict) else ("np" if "np" in v else ("self" if v["ref"] == s["x"] else "dask"))
+                vk = "scalar" if not isinstance(v, dict) else ("np" if "np" in v else ("masked" if "ma" in v else ("self" if v["ref"] == s["x"] else "dask")))
                 ctx.count(("setitem", kinds, vk, optimize))
             else:
                 ctx.count((s["op"] if s["op"] != "derive" else "d:" + s["step"]["op"], optimize, eager))
@@ -1063,7 +1177,7 @@ def run(ctx, replay=None):
         "all data int64 (exact); integer-list keys without repeated indices (NumPy's write order for repeats is not a contract)",
         "dask boolean-mask keys (x[mask] = v) with scalar values only (`where` semantics differ from NumPy's sequential fill for array values)",
         "a fancy key (list / bool / dask array) is combined with slices only (NumPy moves advanced dimensions when separated by a slice)",
-        "an integer index before a negative-step slice is a known failing class (probed separately, finding `setitem:int-before-reversed-slice`)",
+        "MaskedArray values: the oracle is numpy.ma's assignment (x becomes a masked array, as dask documents), not ndarray.__setitem__ (which drops the mask)",
         "list / boolean / dask-array keys are not modelled in Lean (search only); the store theorems assume materialize/eval sound (C01/C02)",
     ]
     NEX = ctx.scale(4, 6)
